@@ -339,7 +339,97 @@ fn collision_campaign(report: &mut Report, n: usize) {
     }
 }
 
+/// The file-based entry point inside one process: a decoy file is loaded first, then the real
+/// document through a path with `.` / `..` segments that lexically resembles the decoy's path;
+/// QUERY must still be the bytes of the file the path names.
+fn path_spelling_one(dir: &std::path::Path, schema_text: &str, schema_ext: &str, real: &str, relative: bool, spelled: &str) -> Option<String> {
+    use crate::e2::{run_history_fresh, History};
+    let _ = std::fs::create_dir_all(dir.join("sub"));
+    let decoy = format!("{}\n# decoy copy, never the requested file\n", real);
+    let sp = dir.join(format!("schema.{}", schema_ext));
+    std::fs::write(&sp, schema_text).unwrap();
+    std::fs::write(dir.join("q.graphql"), real).unwrap();
+    std::fs::write(dir.join("sub").join("q.graphql"), &decoy).unwrap();
+    let (decoy_path, real_path, schema_path, cwd) = if relative {
+        ("sub/q.graphql".to_string(), spelled.to_string(), format!("schema.{}", schema_ext), Some(dir.to_string_lossy().into_owned()))
+    } else {
+        (dir.join("sub/q.graphql").to_string_lossy().into_owned(), dir.join(spelled).to_string_lossy().into_owned(), sp.to_string_lossy().into_owned(), None)
+    };
+    let mk = |q: String| Job { schema_path: schema_path.clone(), query: QuerySrc::Path(q), opts: crate::world::options::Opts::default(), cwd: cwd.clone() };
+    let h = History { calls: vec![mk(decoy_path), mk(real_path.clone())], threads: 1 };
+    let verdict = match run_history_fresh(&h, std::time::Duration::from_secs(60)) {
+        Err(e) => Some(format!("the process died: {}", e)),
+        Ok(outs) => match &outs[1] {
+            Outcome::Ok(tokens) => match describe_tokens(tokens) {
+                Ok((mods, _)) if mods.iter().all(|(_, _, q)| q == real) && !mods.is_empty() => None,
+                Ok((mods, _)) => Some(format!("QUERY is not the content of {} ({} bytes requested, module carries {} bytes{})", real_path, real.len(), mods.first().map(|m| m.2.len()).unwrap_or(0), if mods.first().map(|m| m.2 == decoy).unwrap_or(false) { ": it is the decoy file loaded earlier" } else { "" })),
+                Err(e) => Some(e),
+            },
+            other => Some(format!("generation failed for a valid document spelled {}: {}", real_path, other.short())),
+        },
+    };
+    let _ = std::fs::remove_dir_all(dir);
+    verdict
+}
+
+fn path_spelling_campaign(report: &mut Report, n: usize) {
+    let root = crate::work_dir().join("e2").join(format!("c05p-{}", std::process::id()));
+    let cfg = CaseCfg::default();
+    let mut stats = GenStats::default();
+    let tapes = sample_tapes(report.seed, 0xC05D, n, 3072);
+    let cases: Vec<(usize, Vec<u8>, crate::cases::Base)> = tapes.iter().enumerate().filter_map(|(i, tp)| build_base(&mut Tape::new(tp), &cfg, &mut stats).map(|b| (i, tp.clone(), b))).collect();
+    let results: Vec<Option<String>> = {
+        let next = std::sync::atomic::AtomicUsize::new(0);
+        let out: std::sync::Mutex<Vec<Option<String>>> = std::sync::Mutex::new(vec![None; cases.len()]);
+        std::thread::scope(|s| {
+            for _ in 0..16 {
+                s.spawn(|| loop {
+                    let k = next.fetch_add(1, std::sync::atomic::Ordering::SeqCst);
+                    if k >= cases.len() {
+                        break;
+                    }
+                    let (i, tp, b) = &cases[k];
+                    let dir = root.join(format!("p{}", i));
+                    let mut st = Tape::new(&tp[tp.len() / 2..]);
+                    let relative = st.chance(50);
+                    let spelled = match st.below(3) {
+                        0 => "sub/../q.graphql",
+                        1 => "./sub/../q.graphql",
+                        _ => "sub/./../q.graphql",
+                    };
+                    let real_path = if relative { spelled.to_string() } else { dir.join(spelled).to_string_lossy().into_owned() };
+                    let verdict = path_spelling_one(&dir, &b.case.schema_text, &b.case.schema_ext, &b.case.document, relative, spelled);
+                    out.lock().unwrap()[k] = verdict.map(|v| format!("{}\u{1}{}", real_path, v));
+                });
+            }
+        });
+        out.into_inner().unwrap()
+    };
+    for ((_, tp, b), r) in cases.iter().zip(results) {
+        report.evaluations += 1;
+        report.feature("query:path-with-dot-segments");
+        report.nontrivial.insert(fnv_str(&[&b.case.schema_text, &b.case.document, "dots"]));
+        if let Some(r) = r {
+            let (path, what) = r.split_once('\u{1}').unwrap_or(("", &r));
+            let summary = format!("file-based generation after a decoy file in the same process [{}]: {}", path, what);
+            let replay = json!({"engine": "e2", "tape_hex": crate::tape::hex(tp), "mode": "path-spelling", "schema": b.case.schema_text, "schema_ext": b.case.schema_ext, "document": b.case.document, "spelled": path, "relative": !path.starts_with('/'), "observed": what});
+            report.failure(None, &format!("c05p:{}", crate::campaign::dedup_text(what)), &summary, || replay);
+        }
+    }
+    let _ = std::fs::remove_dir_all(&root);
+}
+
 fn replay_selection(report: &mut Report, v: &Value) {
+    if v["mode"] == "path-spelling" {
+        let dir = crate::work_dir().join("e2").join(format!("c05pr-{}", std::process::id()));
+        let spelled_full = v["spelled"].as_str().unwrap_or("sub/../q.graphql");
+        let spelled = ["sub/./../q.graphql", "./sub/../q.graphql", "sub/../q.graphql"].into_iter().find(|s| spelled_full.ends_with(s)).unwrap_or("sub/../q.graphql");
+        report.evaluations += 1;
+        if let Some(what) = path_spelling_one(&dir, v["schema"].as_str().unwrap_or(""), v["schema_ext"].as_str().unwrap_or("graphql"), v["document"].as_str().unwrap_or(""), v["relative"].as_bool().unwrap_or(false), spelled) {
+            report.violation("replay-path-spelling", &format!("replayed: {}", what), v.clone());
+        }
+        return;
+    }
     let scratch = Scratch::new("c05r");
     let sp = scratch.file(v["schema"].as_str().unwrap_or(""), if v["schema"].as_str().unwrap_or("").trim_start().starts_with('{') { "json" } else { "graphql" });
     let mode = v["mode"].as_str().unwrap_or("");
@@ -380,6 +470,7 @@ pub fn run(report: &mut Report, replay: Option<&Value>) {
     let (n_programs, rounds, n_sel) = if report.thorough() { (250, 8, 100_000) } else { (160, 1, 5_000) };
     selection_campaign(report, n_sel);
     collision_campaign(report, n_sel / 2);
+    path_spelling_campaign(report, if report.thorough() { 6_000 } else { 400 });
     let mut stats = GenStats::default();
     let mut cfg = CaseCfg::default();
     cfg.gen.max_ops = 4;
